@@ -252,6 +252,10 @@ func c13RacePass(env *lib.Env, rep *lib.Report, skipCreate bool) {
 		rep.Notes = append(rep.Notes, "race pass: CREATE TABLE excluded from the overlapped statements because D15 is an open known finding")
 	}
 	run("CREATE TABLE t1 (a int, c varchar(255))")
+	// a refused CREATE DATABASE of the selected database must not leave anything behind that writes to its file
+	if err := sess.ExecQuery("CREATE DATABASE d"); err == nil {
+		panic(lib.HarnessError{Msg: "CREATE DATABASE d succeeded twice"})
+	}
 	time.Sleep(150 * time.Millisecond)
 	n := 0
 	for round := 0; round < 3; round++ {
